@@ -42,6 +42,16 @@ func termHas(t fw.Term, l lit) bool {
 		if containsAll(x.Atom, l.subs...) {
 			return true
 		}
+		// a variable captured by a closure lives in a cell: `*&x` is `x`
+		if strings.Contains(x.Atom, "*&") {
+			subs := make([]string, len(l.subs))
+			for i, sb := range l.subs {
+				subs[i] = strings.ReplaceAll(sb, "*&", "")
+			}
+			if containsAll(strings.ReplaceAll(x.Atom, "*&", ""), subs...) {
+				return true
+			}
+		}
 		// equality is commutative: the extractor orders the operands canonically
 		if sw := swapEq(x.Atom); sw != "" && containsAll(sw, l.subs...) {
 			return true
@@ -97,6 +107,7 @@ func requireOnSuccessIdx(c *fw.Ctx, rule, fname string, fn *ssa.Function, idx in
 	}
 	for _, n := range needs {
 		bad, opaque := "", ""
+		badTerm := ""
 		for _, r := range succ {
 			for _, term := range r.Cond {
 				ok := false
@@ -159,6 +170,7 @@ func requireOnSuccessIdx(c *fw.Ctx, rule, fname string, fn *ssa.Function, idx in
 					opaque = op
 				} else if bad == "" {
 					bad = c.P.Pos(fw.InstrPos(r.Ret))
+					badTerm = fw.DNF{term}.String()
 				}
 			}
 		}
@@ -168,7 +180,7 @@ func requireOnSuccessIdx(c *fw.Ctx, rule, fname string, fn *ssa.Function, idx in
 		}
 		switch {
 		case bad != "":
-			c.Fail(rule, fname+": success requires "+n.what, c.P.Pos(fn.Pos()), fmt.Sprintf("the success return at %s is reachable on a path that does not establish: %s", bad, n.what))
+			c.Fail(rule, fname+": success requires "+n.what, c.P.Pos(fn.Pos()), fmt.Sprintf("the success return at %s is reachable on a path that does not establish: %s [path: %s]", bad, n.what, badTerm))
 		case opaque != "":
 			c.Undecided(rule, fname+": success requires "+n.what, "a success path depends on "+opaque+", which the rule cannot see into")
 		default:
@@ -637,6 +649,10 @@ func checkRestrictedJoinSelection(c *fw.Ctx) {
 					// a condition decided inside an unexported helper that could not be opened may be what establishes it
 					for _, l := range term {
 						if fw.AtomCallsUnexportedHelper(l.Atom) {
+							opaque = l.Atom
+						}
+						// the verdict of a local closure or of a function value (`mayInvite(user)`)
+						if strings.Contains(l.Atom, "closure:") || strings.Contains(l.Atom, "func:") || strings.Contains(l.Atom, "dyn(") || strings.Contains(l.Atom, "$") {
 							opaque = l.Atom
 						}
 					}
